@@ -266,6 +266,29 @@ impl Position {
                         }
                     }
                 }
+                "polyline" | "polygon" | "path" => {
+                    // moved so that the box of its points is where it is asked to be
+                    if let Ok(Some(local)) = element.bbox_raw() {
+                        let (x1, y1) = bbox.locspec(LocSpec::TopLeft);
+                        let (lx, ly) = local.locspec(LocSpec::TopLeft);
+                        // (dx / dy alone move it from where its points are)
+                        let placed_x = self.xmin.or(self.xmax).or(self.cx).is_some();
+                        let placed_y = self.ymin.or(self.ymax).or(self.cy).is_some();
+                        let tx = if placed_x { x1 - lx } else { 0. } + self.dx.unwrap_or(0.);
+                        let ty = if placed_y { y1 - ly } else { 0. } + self.dy.unwrap_or(0.);
+                        if tx != 0. || ty != 0. {
+                            let mut xfrm = format!("translate({}, {})", fstr(tx), fstr(ty));
+                            if let Some(exist_xfrm) = element.get_attr("transform") {
+                                xfrm = format!("{} {}", exist_xfrm, xfrm);
+                            }
+                            element.set_attr("transform", &xfrm);
+                        }
+                        element.remove_attrs(&[
+                            "dx", "dy", "dw", "dh", "x", "y", "x1", "y1", "x2", "y2", "cx", "cy",
+                            "rx", "ry", "r", "width", "height",
+                        ]);
+                    }
+                }
                 "circle" => {
                     let (cx, cy) = bbox.center();
                     let r = bbox.width() / 2.0;
